@@ -49,7 +49,9 @@ _UTILS_MC = ("utils", "MC_Utils", "MC_Utils.cfg", QT)
 
 # the generic phase accumulator on its own, one trace configuration per width (the widths are
 # constants of the specification); the four smallest are also enumerated by TLC and replayed
-PACC_WIDTHS = [(4, 2), (6, 3), (5, 5), (5, 0), (8, 3), (12, 12), (16, 4), (24, 8), (24, 10), (28, 10)]
+# (the degenerate widths <5,5>, <5,0>, <12,12> - no fraction bits / no index bits - are model-checked but not run on
+# the code: the crate never instantiates them and a refactoring may assume 0 < index bits < total bits)
+PACC_WIDTHS = [(4, 2), (6, 3), (8, 3), (16, 4), (24, 8), (24, 10), (28, 10)]
 for _w, _i in PACC_WIDTHS:
     MODULES[f"pacc{_w}_{_i}"] = {
         "trace_spec": "Trace_PhaseAcc", "trace_cfg": f"Trace_PhaseAcc_{_w}_{_i}.cfg",
@@ -58,7 +60,7 @@ for _w, _i in PACC_WIDTHS:
     }
 _PACC_MC = [("pacc-4-2", "MC_PhaseAcc", "MC_PhaseAcc_4_2.cfg", QT), ("pacc-5-5", "MC_PhaseAcc", "MC_PhaseAcc_5_5.cfg", QT),
             ("pacc-5-0", "MC_PhaseAcc", "MC_PhaseAcc_5_0.cfg", QT), ("pacc-6-3", "MC_PhaseAcc", "MC_PhaseAcc_6_3.cfg", T)]
-_PACC_GR = [("pacc4_2", "all", QT), ("pacc6_3", "all", QT), ("pacc5_5", "all", QT), ("pacc5_0", "all", QT)]
+_PACC_GR = [("pacc4_2", "all", QT), ("pacc6_3", "all", QT)]
 _PACC_TR_ALL = [(f"pacc{_w}_{_i}", "ops", QT) for _w, _i in PACC_WIDTHS] + \
                [(f"pacc{_w}_{_i}", "cycles", QT) for _w, _i in [(8, 3), (16, 4), (24, 10)]]
 _PACC_TR_FEW = [("pacc24_10", "ops", QT), ("pacc24_8", "ops", QT), ("pacc16_4", "ops", QT), ("pacc24_10", "cycles", QT)]
